@@ -18,6 +18,7 @@ Print Assumptions C04_every_ack_means_its_policy.
 
 Theorem C04_initial_state_ok : forall replicas min_isr cc, QInv (init_state replicas min_isr cc).
 Proof. exact qinv_init. Qed.
+Print Assumptions C04_initial_state_ok.
 
 (* the offset of a positive acknowledgement keeps naming that message: the log only grows *)
 Theorem C04_log_only_grows : forall xs s s' acks, QInv s -> run s xs = (s', acks) -> exists st, l_log s' = l_log s ++ st.
